@@ -99,6 +99,9 @@ def tainted(v):
     return isinstance(v, tm.T) and v.taint & SECRET
 
 
+LEAK_LIMIT = 6
+
+
 class Leaks:
     def __init__(self):
         self.items = []
@@ -122,6 +125,10 @@ def instrument(m, ctx, leaks):
                     leaks.declass.append(key)
                 else:
                     leaks.items.append(('branch', fn, pos, line))
+                    if len(leaks.items) >= LEAK_LIMIT:
+                        # secret-dependent control flow is established several times over: the harness's verdict cannot change any more,
+                        # and following variable-time code with a symbolic secret (loops whose trip count is the secret) is unbounded work
+                        raise X.StopExploration('%d secret-dependent sites recorded' % len(leaks.items))
                     # the violation is established; follow one side only (no forking over secret values)
                     ctx.decisions.append(True)
                     ctx.pc.append(cond)
@@ -139,9 +146,14 @@ class IndexLog(list):
     def append(self, item):
         pos, idx = item
         if tainted(idx):
-            vals = self.ctx.ex.psolver.enumerate(self.ctx.pc, idx, limit=2) if True else []
-            if len(vals) > 1:
+            try:
+                many = len(self.ctx.ex.psolver.enumerate(self.ctx.pc, idx, limit=2)) > 1
+            except X.Unsupported:    # more values than the limit (or solver gave up): the index is not determined by public data
+                many = True
+            if many:
                 self.leaks.items.append(('index', self.m.cur_fn, pos, source_line(pos)))
+                if len(self.leaks.items) >= LEAK_LIMIT:
+                    raise X.StopExploration('%d secret-dependent sites recorded' % len(self.leaks.items))
 
 
 def main():
@@ -287,6 +299,82 @@ def main():
         for l in (1, 2, 3):
             tasks.append(('mult', t_mult('MultiScalarMult@len%d' % l, msm(l))))
         chk.bounds.append('ScalarMult / ScalarBaseMult / MultiScalarMult (lengths 1..3): all secret scalars in [0,n), arbitrary public points; real ladders, tables and portable lookups executed')
+
+        # long lists: a batch threshold / chunked or bucketed algorithm only shows there.  The list lengths are read from the current tree (every
+        # constant the multi-scalar routines compare a value with, +-1).  Point arithmetic is opaque and taint-propagating here (its branch-freedom
+        # is the short-list runs' and the kernels' claim); the dispatch, table, window and lookup code above it is executed from the real SSA.
+        from .common import dispatch_lengths
+        lens, consts = dispatch_lengths(prog, [PT + 'MultiScalarMult'], base=(33, 129), depth=3)
+        lens = [l for l in lens if 4 <= l <= 300]
+        if len(lens) > 9:
+            lens = lens[:3] + lens[-6:]
+
+        def msm_long(l):
+            def r(m, ctx):
+                install_point_primitives(m, ctx)
+                sc = [sec_scalar(m, ctx, 's%d' % i, False) for i in range(l)]
+                ps = [m.pt_new(0) for i in range(l)]
+                so, po = m.new_obj(None, tree=list(sc)), m.new_obj(None, tree=list(ps))
+                m.call(PT + 'MultiScalarMult', [m.pt_new(0), X.Slice(so, (), 0, l, l), X.Slice(po, (), 0, l, l)])
+            return r
+        for l in lens:
+            tasks.append(('mult', t_mult('MultiScalarMult@len%d[point arithmetic opaque]' % l, msm_long(l), unwind=max(80, l + 8))))
+        chk.bounds.append('MultiScalarMult, long lists: lengths %s (from the comparison constants %s of the current tree and 33, 129), all secret scalars, opaque point arithmetic' % (lens, consts))
+
+    def install_point_primitives(m, ctx):
+        """Point as an opaque value carrying one taint bit; the primitive point operations propagate it and never leak by themselves"""
+        m.abstract_types[MOD + '.Point'] = lambda: X.Abs('pt', 'invalid')
+
+        def mk(t):
+            return X.Abs('pt', {'taint': 1 if t else 0})
+        m.pt_new = lambda t: X.Ptr(m.new_obj(None, tree=mk(t), label='Point'), ())
+
+        def tv(p, allow_invalid=True):
+            v = m.load(p).v
+            if v == 'invalid':
+                if not allow_invalid:
+                    raise X.GoPanic('secp256k1: use of uninitialized Point')
+                return 0
+            return v['taint']
+
+        def put(p, t):
+            m.store(p, mk(t))
+            return p
+        def merge(c, a, b):     # load / store through a symbolic index
+            ta = 0 if a.v == 'invalid' else a.v['taint']
+            tb = 0 if b.v == 'invalid' else b.v['taint']
+            return mk(ta | tb | (1 if tainted(c) else 0))
+        m.abs_merge = merge
+        C = m.contracts
+        C[ROOT + 'NewIdentityPoint'] = lambda m, a: m.pt_new(0)
+        C[ROOT + 'NewGeneratorPoint'] = lambda m, a: m.pt_new(0)
+        C[ROOT + 'newRcvr'] = lambda m, a: X.Ptr(m.new_obj(None, tree=X.Abs('pt', 'invalid'), label='Point'), ())
+        C[ROOT + 'NewPointFrom'] = lambda m, a: m.pt_new(tv(a[0], False))
+        C[ROOT + 'assertPointsValid'] = lambda m, a: [tv(p, False) for p in m.slice_elems(a[0])] and None
+        C[PT + 'Identity'] = lambda m, a: put(a[0], 0)
+        C[PT + 'Generator'] = lambda m, a: put(a[0], 0)
+        for nm, chk_valid in (('Set', True), ('Negate', True), ('Double', True), ('doubleComplete', False), ('mulBeta', True)):
+            C[PT + nm] = (lambda cv: lambda m, a: put(a[0], tv(a[1], not cv)))(chk_valid)
+        for nm, chk_valid in (('Add', True), ('Subtract', True), ('addComplete', False)):
+            C[PT + nm] = (lambda cv: lambda m, a: put(a[0], tv(a[1], not cv) | tv(a[2], not cv)))(chk_valid)
+        C[PT + 'addMixed'] = lambda m, a: put(a[0], 1 if (tv(a[1]) or any(tainted(x) for x in tm_leaves(m, a[2])) or any(tainted(x) for x in tm_leaves(m, a[3]))) else 0)
+        C[PT + 'ConditionalNegate'] = lambda m, a: put(a[0], tv(a[1], False) | (1 if tainted(a[2]) else 0))
+        C[PT + 'ConditionalSelect'] = lambda m, a: put(a[0], tv(a[1], False) | tv(a[2], False) | (1 if tainted(a[3]) else 0))
+        C[PT + 'uncheckedConditionalSelect'] = lambda m, a: put(a[0], tv(a[1]) | tv(a[2]) | (1 if tainted(a[3]) else 0))
+        C[PT + 'IsIdentity'] = lambda m, a: tm.zext(tm.var('isid_%d' % id(m.load(a[0])), 1, SECRET if tv(a[0], False) else 0), 64)
+
+    def tm_leaves(m, p):
+        v = m.load(p)
+        out = []
+
+        def walk(x):
+            if isinstance(x, (list, tuple)):
+                for y in x:
+                    walk(y)
+            else:
+                out.append(x)
+        walk(v)
+        return out
 
     # ------------------------------------------------------------------ 3. the SSE2 lookups: instruction stream with a secret index
     def t_asm(sub):
